@@ -7,6 +7,8 @@ CONSTANTS NV = 5
           MaxHeight = 3
           MaxId = 2
           MaxSigns = 99
+          NWho = 1
+          Rich = FALSE
           EmitOn = TRUE
 VIEW View
 CONSTRAINT Bound
